@@ -34,7 +34,7 @@ type modSet struct {
 }
 
 // dryRun executes f on a clone of st with obligations suppressed and reports what changed.
-func (vc *VC) dryRun(st *State, f func(s *State) []*State) modSet {
+func (vc *VC) dryRun(st *State, label string, f func(s *State) []*State) modSet {
 	nObl := len(vc.obls)
 	savedCounters := map[string]int{}
 	for k, v := range vc.counters {
@@ -45,7 +45,7 @@ func (vc *VC) dryRun(st *State, f func(s *State) []*State) modSet {
 	vc.dry++
 	base := st.clone()
 	// give every heap known so far an explicit entry so that diffs are visible
-	tg := &target{isLoop: true}
+	tg := &target{isLoop: true, label: label}
 	vc.targets = append(append([]*target(nil), savedTargets...), tg)
 	outs := f(base.clone())
 	outs = append(outs, tg.conts...)
@@ -173,6 +173,10 @@ func (vc *VC) specEnv(st, old *State) *SpecEnv {
 		if v, ok := st.vars[o]; ok {
 			vars[n] = v
 		}
+		// an inner declaration shadowing the parameter (e.g. `switch msg := msg.(type)`) wins while in scope
+		if so := vc.lookupProgramVar(st, n); so != nil && so != o && so.Pos() > o.Pos() {
+			vars[n] = st.vars[so]
+		}
 	}
 	return &SpecEnv{vc: vc, st: st, old: old, vars: vars, pkg: vc.pkg, oldVars: vc.paramTerm}
 }
@@ -259,7 +263,7 @@ func (vc *VC) execFor(st *State, x *ast.ForStmt, label string) []*State {
 		}
 		return res
 	}
-	ms := vc.dryRun(st, iter)
+	ms := vc.dryRun(st, label, iter)
 	vc.checkInvs(st, ls, "inv-entry", entry, n, vc.pos(x))
 	head := vc.havocFor(st, ms, ls, entry)
 	vc.assumeInvs(head, ls, entry)
@@ -469,7 +473,7 @@ func (vc *VC) execRange(st *State, x *ast.RangeStmt, label string) []*State {
 		}
 		return outs
 	}
-	ms := vc.dryRun(st, func(s *State) []*State { s.assume(pre(s)); return iter(s) })
+	ms := vc.dryRun(st, label, func(s *State) []*State { s.assume(pre(s)); return iter(s) })
 	vc.checkInvs(st, ls, "inv-entry", entry, n, vc.pos(x))
 	head := vc.havocFor(st, ms, ls, entry)
 	havocGhost(head)
